@@ -439,6 +439,10 @@ func (propC18) Observe(raw json.RawMessage) (Observed, error) {
 	case "error":
 		obs = "OError"
 	case "panic":
+		// a recovered runtime.Error.  Run/C18Run.v accepts it as the API-level error it is exactly
+		// where the repaired model itself predicts a panic caught by exec's recover frame — the
+		// one such site is SETVAR on a query built without WithVars (nil-map write; not a C18
+		// defect) — and reports it as a D41-style defect everywhere else.
 		obs = "OPanicked"
 	default:
 		s, isStr := res.val.(string)
